@@ -157,6 +157,53 @@ theorem refetch_window (env : Env) (hv : validate env.cfg = true) (t0 : Nat) (op
     have := h.2
     omega
 
+/-- **refetch_window_failed.** The tight form of the property's "no later than the configured backoff
+    ceiling": after a fetch that *fails* at `now` (fetcher error, or no policy-conforming unexpired path)
+    in a reachable state, the next lookup is scheduled exactly `max(backoff, min_refetch_delay)` later,
+    hence – for any backoff duration `b` up to the ceiling – no later than
+    `max(backoff ceiling, min_refetch_delay)` after `now`; `refetch_interval` plays no role.
+    (`b ≤ backoffMax` is a hypothesis about the f32 `ExponentialBackoff::duration`, checked on the real
+    code by the oracle `C06:backoff-range`.) -/
+theorem refetch_window_failed (env : Env) (t0 : Nat) (ops : List Op)
+    (now : Nat) (resp : Resp) (sc0 sc1 : Nat → Int) (ord : List Nat) (b : Nat) (e : FetchErr)
+    (hfail : fetchFiltered env now resp = .error e) (hb : b ≤ env.cfg.backoffMax) :
+    (fetchAndUpdate env (run env t0 ops) now resp sc0 sc1 ord b).nextRefetch =
+      now + max b env.cfg.minRefetchDelay ∧
+    (fetchAndUpdate env (run env t0 ops) now resp sc0 sc1 ord b).nextRefetch ≤
+      now + max env.cfg.backoffMax env.cfg.minRefetchDelay := by
+  have h : (fetchAndUpdate env (run env t0 ops) now resp sc0 sc1 ord b).nextRefetch =
+      now + max b env.cfg.minRefetchDelay := by
+    unfold fetchAndUpdate
+    simp only [hfail, markInit, reevaluate_nextRefetch, afterErr, failDelay]
+  refine ⟨h, ?_⟩
+  rw [h]
+  omega
+
+/-- **refetch_window_ok.** After a fetch that *succeeds* at `now` in a reachable state of a validated
+    configuration the next lookup is scheduled within `[now + min_refetch_delay, now + refetch_interval]`
+    (the backoff ceiling plays no role). -/
+theorem refetch_window_ok (env : Env) (hv : validate env.cfg = true) (t0 : Nat) (ops : List Op)
+    (now : Nat) (resp : Resp) (sc0 sc1 : Nat → Int) (ord : List Nat) (b : Nat) (f : List Path)
+    (hok : fetchFiltered env now resp = .ok f) :
+    now + env.cfg.minRefetchDelay ≤
+      (fetchAndUpdate env (run env t0 ops) now resp sc0 sc1 ord b).nextRefetch ∧
+    (fetchAndUpdate env (run env t0 ops) now resp sc0 sc1 ord b).nextRefetch ≤
+      now + env.cfg.refetchInterval := by
+  have hf := validate_facts hv
+  have hw := run_wf env t0 ops hf.1
+  have hbad := (fetchAndUpdate_wf env (run env t0 ops) now resp sc0 sc1 ord b hf.1 hw.1).2
+  rw [hw.2] at hbad
+  revert hbad
+  unfold fetchAndUpdate
+  simp only [hok]
+  split
+  · intro h; cases h
+  · next ee _ =>
+    intro _
+    simp only [markInit, reevaluate_nextRefetch, afterOk]
+    have := nextAfterOk_bounds env.cfg now ee
+    omega
+
 /-- **never_without_path.** After every fetch executed at `now` in a reachable state: if some cached
     path is valid (more than `min_expiry_threshold` of lifetime left), a sender asking at `now` gets a
     path. -/
@@ -174,11 +221,61 @@ theorem never_without_path (env : Env) (hv : validate env.cfg = true) (t0 : Nat)
   simp only [live_not_expiredAt hl]
   rfl
 
-/- **never_without_path between maintenance ticks** is *not* proved: the active path is only
+/- **never_without_path** at full strength (FALSE on the current code – known findings
+   `C06:without-path:active-expired-between-ticks` and `C06:without-path:only-near-expiry-paths`):
+     in every reachable state, at every instant `now`: some cached path is not expired at `now`
+       ⟹ `cached_path` hands out a path.
+   `never_without_path` above is the partial result (right after a fetch, "valid" = more than
+   `min_expiry_threshold` left); the two witnesses below refute the full statement. -/
+
+private def cfgT : Cfg :=
+  { defaultCfg with refetchInterval := 10 * NS, minRefetchDelay := 1 * NS, minExpiryThreshold := 5 * NS }
+private def envT : Env := { cfg := cfgT, src := 1, dst := 2, allowed := fun _ => true }
+/-- A expires 100 s after the start and is ranked first, B lives for hours -/
+private def pA : Path := ⟨1, some 100, 1, 2, some [⟨1, 3⟩, ⟨2, 2⟩], some 3, some 2⟩
+private def pB : Path := ⟨2, some 10000, 1, 2, some [⟨1, 1⟩, ⟨7, 1⟩, ⟨7, 4⟩, ⟨2, 1⟩], some 1, some 1⟩
+private def scT : Nat → Int := fun fp => if fp = 1 then 96 else 94
+/-- fetch ok at 0 s; the fetches at 10 s and 70 s fail with backoffs 60 s and 90 s (next tick: 160 s) -/
+private def opsT : List Op :=
+  [.maintain 0 (.ok [pA, pB]) scT scT [1, 2] 0,
+   .maintain (10 * NS) .errOther scT scT [] (60 * NS),
+   .maintain (70 * NS) .errOther scT scT [] (90 * NS)]
+
+/-- **without_path_between_ticks_witness.** A validated configuration and a reachable state in which a
+    cached path (B) is valid for hours, yet `cached_path` hands out nothing: the active path (A)
+    expired between two maintenance ticks. -/
+theorem without_path_between_ticks_witness :
+    ¬ (∀ (env : Env) (t0 : Nat) (ops : List Op) (now : Nat), validate env.cfg = true →
+        (∃ e ∈ (run env t0 ops).cached, e.expiredAt now = false) →
+        ∃ p, sendCached (run env t0 ops) now = some p) := by
+  intro h
+  obtain ⟨p, hp⟩ := h envT 0 opsT (101 * NS) (by decide) ⟨pB, by decide, by decide⟩
+  have hn : sendCached (run envT 0 opsT) (101 * NS) = none := by decide
+  rw [hn] at hp
+  cases hp
+
+/-- the only fetched path has 4 s left, `min_expiry_threshold` is 5 s -/
+private def pN : Path := ⟨1, some 4, 1, 2, some [⟨1, 3⟩, ⟨2, 2⟩], some 3, some 2⟩
+private def opsN : List Op := [.maintain 0 (.ok [pN]) scT scT [1] 0]
+
+/-- **without_path_near_expiry_witness.** Right after a successful fetch: the one cached path is not
+    expired (4 s left) but closer to its expiry than `min_expiry_threshold`; it is never made active and
+    the sender gets nothing. -/
+theorem without_path_near_expiry_witness :
+    ¬ (∀ (env : Env) (t0 : Nat) (ops : List Op) (now : Nat), validate env.cfg = true →
+        (∃ e ∈ (run env t0 ops).cached, e.expiredAt now = false) →
+        ∃ p, sendCached (run env t0 ops) now = some p) := by
+  intro h
+  obtain ⟨p, hp⟩ := h envT 0 opsN (1 * NS) (by decide) ⟨pN, by decide, by decide⟩
+  have hn : sendCached (run envT 0 opsN) (1 * NS) = none := by decide
+  rw [hn] at hp
+  cases hp
+
+/- (kept for reference) between maintenance ticks: the active path is only
    re-evaluated on maintenance ticks and issue deliveries; after a failed fetch the next tick is a
    backoff away, which may be later than the active path's expiry (then `cached_path` returns `None`
-   although another cached path is still valid).  The harness exercises this (oracle
-   `C06:without-path` is checked right after fetches only). -/
+   although another cached path is still valid).  The harness checks every send of every history
+   (oracle `C06:without-path*`). -/
 
 /-! ## non-vacuity -/
 example : validate defaultCfg = true := by decide
@@ -186,6 +283,9 @@ private def pV : Path := ⟨1, some 5000, 1, 2, some [⟨1, 1⟩, ⟨2, 2⟩], s
 private def envV : Env := { cfg := defaultCfg, src := 1, dst := 2, allowed := fun _ => true }
 example : sendCached (fetchAndUpdate envV (run envV 0 []) 0 (.ok [pV]) (fun _ => 0) (fun _ => 0) [] 0) 0 = some pV := by
   decide
+example : ∃ e, fetchFiltered envV 0 .errOther = .error e := ⟨.other, rfl⟩
+example : (fetchFiltered envV 0 (.ok [pV])).toBool = true := by decide
+example : (run envT 0 opsT).nextRefetch = 160 * NS ∧ (run envT 0 opsT).active = some pA := by decide
 example : (run envW 0 opsW).im.fifo.length = 4 ∧ (run envW 0 opsW).im.cache.length = 1 := by decide
 
 end ScionVerif.PathMgr
